@@ -40,7 +40,7 @@ MIN_NONTRIVIAL = {'quick': 1000, 'thorough': 8000}
 REQUIRED = ('pluribus_lines_compared', 'acpc_viewer_sequences_compared',
             'loops_closed', 'fixed_limit_hands', 'no_limit_hands',
             'allin_hands', 'showdown_hands', 'folded_out_hands',
-            'raise_amounts_rendered')
+            'raise_amounts_rendered', 'min_bet_differs_from_big_blind')
 
 
 def render(state, variant, hand_number, players=None):
@@ -141,8 +141,11 @@ def gen_cfg(rng):
     stack = rng.choice([bb, 3 * bb, 10 * bb, 20 * bb, 100 * bb, 200 * bb,
                         rng.randint(2, 60) * bb])
     name = 'FixedLimitTexasHoldem' if ft else 'NoLimitTexasHoldem'
+    # the no-limit minimum bet is a game parameter of its own: usually the
+    # big blind, but not necessarily
+    mb = bb if rng.random() < 0.7 else rng.choice([sb, 2 * bb, 1, 3 * sb])
     gargs = [rng.random() < 0.5, 0, (sb, bb)] + (
-        [bb, 2 * bb] if ft else [bb])
+        [bb, 2 * bb] if ft else [mb])
     cfg = {
         'chip_type': 'int', 'kind': 'game', 'game': name, 'gargs': gargs,
         'autos': gen.gen_autos(rng, rng.choice(['any', 'typical', 'all',
@@ -173,6 +176,8 @@ def check_case(res, rng):
         return
     s = ctx.state
     res.evaluations += 1
+    if not cfg['game'].startswith('Fixed') and cfg['gargs'][3] != cfg['bb']:
+        res.counters['min_bet_differs_from_big_blind'] += 1
     variant = 'FT' if cfg['game'].startswith('Fixed') else 'NT'
     res.counters['fixed_limit_hands' if variant == 'FT'
                  else 'no_limit_hands'] += 1
